@@ -361,6 +361,20 @@ func execOp(line string) string {
 			}
 			return "ok " + one(a) + " ; " + one(b) + " ; " + one(append(append([]byte{}, a...), b...))
 		})
+	case "crt":
+		// CompoundPacket.Marshal, then CompoundPacket.Unmarshal of the result
+		return guarded(func() string {
+			c := rtcp.CompoundPacket(getPackets(NewR(args)))
+			b, err := c.Marshal()
+			if err != nil {
+				return "err"
+			}
+			var d rtcp.CompoundPacket
+			if err := d.Unmarshal(exactCap(b)); err != nil {
+				return "ok " + hexOrDash(b) + " ; err"
+			}
+			return "ok " + hexOrDash(b) + " ; " + packetsTokens([]rtcp.Packet(d))
+		})
 	case "reuse":
 		// reuse.K <hex A> <hex B>: decode A, then decode B into the SAME receiver; the result must be what a fresh
 		// receiver gives for B (err when B is rejected, whatever A left behind)
